@@ -83,8 +83,21 @@ def run_case(case, ctx):
     n_exp = len(exp) if exp is not None else 0
     budget = 3000 * (n_exp + 3) + 100 * span_days
     codes = [drange, rrule._iter]
-    with StepBudget(codes, budget) as sb:
-        st, res = ctx.call(drange, t0, t1, bump)
+    poisoned = False
+    if kind == 'b' and case.get('default_calendar_has_holidays'):
+        # someone registered holidays / another weekend on the default calendar: drange's 'b' bumps are about weekdays only
+        from pyg_base import calendar
+        lo_ = min(t0, t1)
+        hols = [datetime.datetime(lo_.year, lo_.month, lo_.day) + DAY * i for i in range(0, 40, 3)]
+        calendar(None, holidays=hols, weekend=[4, 5])
+        poisoned = True
+    try:
+        with StepBudget(codes, budget) as sb:
+            st, res = ctx.call(drange, t0, t1, bump)
+    finally:
+        if poisoned:
+            from pyg_base import _drange
+            _drange.calendars.pop(None, None)
     ctx.maxstat('max_steps_over_budget', sb.count / float(budget))
     if not ctx.check('termination_step_budget', st != 'steps', lambda: 'drange(%s, %s, %r) exceeded %d line events' % (t0, t1, bump, budget)):
         return
@@ -202,7 +215,7 @@ def gen_case(rng):
         t1 = t0 - (t1 - t0)
         if kind in ('single', 'compound') and not any(u in str(bump) for u in 'hns'):
             t1 = datetime.datetime(t1.year, t1.month, min(t1.day, 28))
-    return {'kind': kind, 't0': t0.isoformat(), 't1': t1.isoformat(), 'bump': bump, 'big': big, 'via_calendar': rng.random() < 0.15}
+    return {'kind': kind, 't0': t0.isoformat(), 't1': t1.isoformat(), 'bump': bump, 'big': big, 'via_calendar': rng.random() < 0.15, 'default_calendar_has_holidays': rng.random() < 0.3}
 
 
 def plan(tier, seed, n):
